@@ -397,8 +397,38 @@ func runOps(g *Gen, o *Out, api string, wo wOpts, roots []cid.Cid, alpha []Blk, 
 	}
 }
 
+// typestateSessions: every ordered pair of ending operations (FinalizeReadOnly, Finalize, Close,
+// Discard), each followed by every kind of lookup and write — the state a store is left in after an
+// ending call, after a second one, and after one that was refused.
+func typestateSessions(g *Gen, o *Out, seq *int) {
+	ends := []string{"finro", "finalize", "close", "discard"}
+	probe := []string{"has", "get", "size", "keys", "roots", "put", "many"}
+	for _, v1 := range []bool{false, true} {
+		for _, t1 := range ends {
+			for _, t2 := range ends {
+				for _, api := range []string{"bs", "st"} {
+					wo := g.wOpts()
+					wo.v1 = v1
+					alpha := g.opAlphabet(wo)
+					for _, b := range alpha {
+						o.Hash(b.C.Prefix().MhType, b.D)
+					}
+					ops := []string{"put", "put", t1}
+					ops = append(ops, probe...)
+					ops = append(ops, t2)
+					ops = append(ops, probe...)
+					ops = append(ops, t1, "has", "put", "file")
+					*seq++
+					runOps(g, o, api, wo, g.Roots(alpha[:3]), alpha, ops, *seq)
+				}
+			}
+		}
+	}
+}
+
 func famC04(g *Gen, o *Out, n int, thorough bool) {
 	seq := 0
+	typestateSessions(g, o, &seq)
 	for c := 0; c < n; c++ {
 		wo := g.wOpts()
 		if g.pick(8) == 0 {
